@@ -80,6 +80,10 @@ def run(ctx):
     R_reach = ctx.rule("C12.reachable-no-fs-mutation", "functions reachable from the writers perform no path-based fs mutation of their own", floor=50)
     R_caller = ctx.rule("C12.callers-do-not-touch-dest", "callers of the writers never create/truncate/remove the destination themselves", floor=5)
 
+    # (C12e/C03e family) a short write accepted as complete leaves a truncated but well-formed file behind a reported success
+    from .c03 import partial_io_rule
+    partial_io_rule(ctx, prog.all_workspace(), "C12", floor=100)
+
     cg = mirg.CallGraph(prog.all_workspace())
     mpq = prog.crate("wow_mpq")
 
